@@ -139,7 +139,13 @@ def real_model_binding(chk):
         sel = [x for x in models if (x[1].media is not None) == ground]
         if not sel:
             continue
-        recs = T.spec_records(chk, [x[2] for x in sel], ground, name='c09-real-%s' % ground)
+        try:
+            recs = T.spec_records(chk, [x[2] for x in sel], ground, name='c09-real-%s' % ground)
+        except C.SpecViolation as e:
+            # the projection of a REAL model violates an invariant of the specification
+            chk.violation(dict(kind='real-model-violates-spec-invariant', invariant=e.invariant),
+                          dict(models=[x[0] for x in sel], ground=ground))
+            continue
         for (name, m, inp), rec in zip(sel, recs):
             if rec.get('reject'):
                 continue
